@@ -89,6 +89,22 @@ Theorem partner_in_range : forall ds c idx dr s rest p w,
 Proof. exact partner_in_range_l. Qed.
 Print Assumptions partner_in_range.
 
+(* the partner may be sample idx itself (integers(len) includes idx): the result is then sample idx -- data and label
+   (the wrapped dataset hands out a fresh tensor per call, see ASSUMPTIONS) *)
+Theorem self_partner_returns_sample : forall ds c idx dr s rest w,
+  draws_ok dr -> getitem_xclass ds c idx dr = Ok (s, rest) -> s_mix s = Some (idx, w) ->
+  same_tensor (s_x s) (ds_x ds idx) /\ Forall2 Qeq (s_cls s) (label_vector ds idx).
+Proof. exact self_partner_l. Qed.
+Print Assumptions self_partner_returns_sample.
+
+(* the context a request returns describes the requested sample: whatever is drawn, the only calls of the wrapped
+   dataset that are handed the request's context dictionary are the loads of sample idx; the partner is loaded with a
+   dictionary of its own (repaired: fixes/C11_partner_ctx.patch) *)
+Theorem request_ctx_describes_requested_sample : forall ds c G toks idx vals calls,
+  mw_getitem ds c G toks idx = Ok (vals, calls) -> Forall (fun cl => ctx_describes idx (c_sample cl)) calls.
+Proof. exact request_ctx_describes_l. Qed.
+Print Assumptions request_ctx_describes_requested_sample.
+
 (* ---------- non-vacuity: the premises are satisfiable and the interesting branches are reached ---------- *)
 Definition ds_ex : dataset :=
   lit_dataset [([2; 3]%nat, [1; 2; 3; 4; 5; 6]%Q, LInt 0);
@@ -96,7 +112,7 @@ Definition ds_ex : dataset :=
                ([1; 4]%nat, [7; 8; 9; 10]%Q, LVec [1 # 4; 1 # 4; 1 # 2]%Q)] 3.
 Definition c_ex : cfg :=
   {| total_p := 1; cutmix_p := 0; mixup_alpha := Some (4 # 5); cutmix_alpha := None;
-     unify := UPadOrCutEnd; seed := Some 5 |}.
+     unify := UPadOrCutEnd; seed := Some 5; with_ctx := true |}.
 Definition dr_ex : list draw := [DUnit (1 # 3); DInt 3 1; DBeta (4 # 5) (1 # 4)].
 (* a generator that depends on its seed argument only *)
 Definition G_ex : oracle := fun _ sd => match sd with Some 5 => dr_ex | _ => [DUnit (9 # 10)] end.
@@ -142,6 +158,27 @@ Qed.
 (* an untouched sample *)
 Example untouched_example :
   exists s, getitem_xclass ds_ex {| total_p := 1 # 2; cutmix_p := 0; mixup_alpha := Some 1%Q; cutmix_alpha := None;
-                                     unify := UNone; seed := None |} 1 [DUnit (3 # 4)] = Ok (s, []) /\
+                                     unify := UNone; seed := None; with_ctx := false |} 1 [DUnit (3 # 4)] = Ok (s, []) /\
             s_mix s = None /\ s_cls s = [0; 0; 1]%Q.
 Proof. eexists. split; [vm_compute; reflexivity|]. split; reflexivity. Qed.
+
+(* the context of the example request: only loads of sample 0, although sample 1 was loaded as the partner *)
+Example ctx_example :
+  exists s, getitem_xclass ds_ex c_ex 0 dr_ex = Ok (s, []) /\
+    s_loads s = [LdX 0; LdClass 0; LdX 1; LdClass 1] /\ s_ctx s = [LdX 0; LdClass 0].
+Proof. eexists. split; [vm_compute; reflexivity|]. split; reflexivity. Qed.
+
+(* before the repair the partner was loaded with the request's dictionary: that context does not describe sample 0 *)
+Example unrepaired_ctx_refuted :
+  ~ ctx_describes 0 {| s_x := ds_x ds_ex 0; s_cls := []; s_mix := Some (1%nat, 1 # 4);
+                       s_loads := [LdX 0; LdClass 0; LdX 1; LdClass 1]; s_ctx := [LdX 0; LdClass 0; LdX 1; LdClass 1] |}.
+Proof.
+  unfold ctx_describes. simpl. intro H. inversion H as [|? ? _ Ha]. inversion Ha as [|? ? _ Hb].
+  inversion Hb as [|? ? E _]. simpl in E. discriminate.
+Qed.
+
+(* a sample mixed with itself *)
+Example self_partner_example :
+  exists s, getitem_xclass ds_ex c_ex 0 [DUnit (1 # 3); DInt 3 0; DBeta (4 # 5) (1 # 4)] = Ok (s, []) /\
+    s_mix s = Some (0%nat, 1 # 4) /\ Forall2 Qeq (flatten (s_x s)) [1; 2; 3; 4; 5; 6]%Q /\ Forall2 Qeq (s_cls s) [1; 0; 0]%Q.
+Proof. eexists. split; [vm_compute; reflexivity|]. split; [reflexivity|]. split; vm_compute; repeat constructor. Qed.
